@@ -3,9 +3,10 @@ from vlib.gen import Unit, Fn, Adt, Raw
 
 M = "crates/compiler/src/mono.rs"
 
-def zinv(k, l, r):
+def zinv(k, l, r, extra=""):
     return (f"invariant __zk{k} <= {l}.len(), __zk{k} <= {r}.len(), extends(old(subst)@, subst@),\n"
-            f"  (param_free(*template) && no_tvar(*template) && *template == *actual) ==> subst@ == old(subst)@,\n"
+            f"  forall|j: int| #![trigger {l}@[j]] 0 <= j < __zk{k} ==> is_apply({l}@[j], subst@, {r}@[j]) && covers({l}@[j], subst@),\n"
+            f"  (param_free(*template) && no_tvar(*template) && *template == *actual) ==> subst@ == old(subst)@,{extra}\n"
             f"decreases {l}.len() - __zk{k},")
 
 UNIT = Unit(
@@ -20,14 +21,16 @@ UNIT = Unit(
     items=[
         Adt(file="crates/compiler/src/tast.rs", kw="enum", name="Ty", rules=["attrs"]),
         Raw(path="contracts/munify.shim.rs"),
+        Raw(path="contracts/msubst.spec.rs"),
         Fn(file=M, name="unify", ret="r", attrs="#[verifier::loop_isolation(false)]",
            obligation="existing bindings kept; succeeds on every ground type against itself (completeness on the diagonal)",
-           rewrites=[("if prev != a {", "if ty_ne(prev, a) {"), ("subst.insert(name.clone(), a.clone());", "subst.insert(string_clone(name), ty_clone(a));"),
+           rewrites=[(re.compile(r"if prev != a \{"), "if ty_ne(prev, a) {", "*"), ("subst.insert(name.clone(), a.clone());", "subst.insert(string_clone(name), ty_clone(a));"),
                      ("if ln != rn {", "if string_ne(ln, rn) {")],
            contract="""ensures extends(old(subst)@, final(subst)@),
             (param_free(*template) && no_tvar(*template) && *template == *actual) ==> r is Ok && final(subst)@ == old(subst)@,
+            r is Ok ==> is_apply(*template, final(subst)@, *actual) && covers(*template, final(subst)@),
         decreases *template,""",
-           ghost=[("@entry", "", "proof { broadcast use lemma_extends_trans; assert(extends(subst@, subst@)); }")],
-           loops={0: zinv(0, "l", "r"), 1: zinv(1, "la", "ra"), 2: zinv(2, "lp", "rp")}),
+           ghost=[("@entry", "", "proof { broadcast use lemma_extends_trans, lemma_apply_stable_b; assert(extends(subst@, subst@)); }")],
+           loops={0: zinv(0, "l", "r"), 1: zinv(1, "la", "ra", " is_apply(**lt, subst@, **rt) && covers(**lt, subst@),"), 2: zinv(2, "lp", "rp")}),
     ],
 )
